@@ -1,6 +1,6 @@
 /-
-  Helper lemmas for C13 (entity maps), part 2: `sortEntities` is THE sorted permutation; `decodeEntities` folds an array
-  of entity documents with "the last entry for a UID wins".
+  Helper lemmas for C13 (entity maps), part 2: `sortEntities` is THE sorted permutation; `decodeEntities` enters an array
+  of entity documents into a map one by one and refuses the second entry of a UID (`entAddAll_eq`).
 -/
 import CedarGoProofs.Lemmas.C13EntityMap
 namespace CedarGo.JsonModel
@@ -146,20 +146,6 @@ theorem entInsert_fresh (e : UID × EntityData) : ∀ (acc : Entities), e.1 ∉ 
     simp only [entInsert, hk, Bool.false_eq_true, if_false, List.cons_append]
     rw [entInsert_fresh e xs h.2]
 
-/-- an array without repeated UIDs decodes to the same list -/
-theorem foldl_entInsert_nodup : ∀ (l acc : Entities), (keysOf (acc ++ l)).Nodup →
-    l.foldl (fun a e => entInsert e a) acc = acc ++ l
-  | [], acc, _ => by simp
-  | e :: l, acc, hn => by
-    have hfresh : e.1 ∉ keysOf acc := by
-      intro hm
-      simp only [keysOf, List.map_append, List.map_cons] at hn
-      have := (List.nodup_append.mp hn).2.2 e.1 hm e.1 (by simp)
-      exact this rfl
-    simp only [List.foldl]
-    rw [entInsert_fresh e acc hfresh, foldl_entInsert_nodup l (acc ++ [e]) (by simpa using hn)]
-    simp
-
 theorem get_entInsert (e : UID × EntityData) (u : UID) : ∀ (acc : Entities),
     Entities.get (entInsert e acc) u = if e.1 == u then some e.2 else Entities.get acc u
   | [] => by simp [entInsert, Entities.get]
@@ -183,25 +169,100 @@ theorem get_entInsert (e : UID × EntityData) (u : UID) : ∀ (acc : Entities),
         simp only [this, Bool.false_eq_true, if_false]
         exact get_entInsert (ek, ed) u xs
 
-/-- **the last entry wins**: looking `u` up after decoding the array finds the LAST entry of the array with that UID -/
-theorem get_foldl_entInsert (u : UID) : ∀ (es acc : Entities),
-    Entities.get (es.foldl (fun a e => entInsert e a) acc) u =
-      match es.reverse.find? (fun e => e.1 == u) with
-      | some e => some e.2
-      | none => Entities.get acc u
-  | [], acc => by simp
-  | e :: es, acc => by
-    simp only [List.foldl, List.reverse_cons, List.find?_append]
-    rw [get_foldl_entInsert u es (entInsert e acc)]
-    cases h : es.reverse.find? (fun e => e.1 == u) with
-    | some x => simp
-    | none =>
-      simp only [Option.none_or, List.find?_cons, List.find?_nil, get_entInsert]
-      by_cases hu : e.1 == u <;> simp [hu]
+/-! ### the guarded loop: `if _, ok := res[e.UID]; ok { return error }; res[e.UID] = e` -/
+
+theorem get_isSome_iff : ∀ (m : Entities) (u : UID), (Entities.get m u).isSome = true ↔ u ∈ keysOf m
+  | [], _ => by simp [Entities.get, keysOf]
+  | (k, d) :: rest, u => by
+    by_cases hk : k = u
+    · subst hk; simp [Entities.get, keysOf]
+    · have hk' : (k == u) = false := by simpa using hk
+      have ih := get_isSome_iff rest u
+      simp only [keysOf] at ih
+      simp only [Entities.get, hk', Bool.false_eq_true, if_false, keysOf, List.map_cons, List.mem_cons, ih]
+      constructor
+      · exact Or.inr
+      · rintro (e | h)
+        · exact absurd e.symm hk
+        · exact h
+
+/-- one turn: refused iff the UID is already present, otherwise the entry is appended -/
+theorem entAdd_eq (acc : Entities) (e : UID × EntityData) :
+    entAdd acc e = if e.1 ∈ keysOf acc then .error .reject else .ok (acc ++ [e]) := by
+  unfold entAdd
+  by_cases h : e.1 ∈ keysOf acc
+  · simp [h, (get_isSome_iff acc e.1).mpr h]
+  · have hs : (Entities.get acc e.1).isSome = false := by
+      cases hh : (Entities.get acc e.1).isSome
+      · rfl
+      · exact absurd ((get_isSome_iff acc e.1).mp hh) h
+    simp [h, hs, entInsert_fresh e acc h]
+
+/-- **the whole loop, exactly**: accepted iff no UID is entered twice, and then the map lists the entries in array order -/
+theorem entAddAll_eq : ∀ (es acc : Entities), (keysOf acc).Nodup →
+    entAddAll acc es = if (keysOf (acc ++ es)).Nodup then .ok (acc ++ es) else .error .reject
+  | [], acc, hacc => by simp [entAddAll, hacc]
+  | e :: es, acc, hacc => by
+    by_cases hm : e.1 ∈ keysOf acc
+    · have hnd : ¬ (keysOf (acc ++ e :: es)).Nodup := by
+        intro hn
+        simp only [keysOf, List.map_append, List.map_cons] at hn hm
+        exact (List.nodup_append.mp hn).2.2 e.1 hm e.1 (by simp) rfl
+      simp [entAddAll, entAdd_eq, hm, hnd, bind, Except.bind]
+    · have hacc' : (keysOf (acc ++ [e])).Nodup := by
+        simp only [keysOf, List.map_append, List.map_cons, List.map_nil] at hm hacc ⊢
+        refine List.nodup_append.mpr ⟨hacc, by simp, ?_⟩
+        intro a ha b hb
+        simp only [List.mem_cons, List.not_mem_nil, or_false] at hb
+        subst hb
+        exact fun e' => hm (e' ▸ ha)
+      have ih := entAddAll_eq es (acc ++ [e]) hacc'
+      simp only [List.append_assoc, List.cons_append, List.nil_append] at ih
+      simp only [entAddAll, entAdd_eq, hm, if_false, bind, Except.bind]
+      exact ih
+
+/-- from the empty map: an array without repeated UIDs decodes to the same list, any other array is refused -/
+theorem entAddAll_nil (es : Entities) :
+    entAddAll [] es = if (keysOf es).Nodup then .ok es else .error .reject := by
+  simpa using entAddAll_eq es [] (by simp [keysOf])
 
 theorem mapMR_ok_of_forall {α β} (f : α → R β) (g : β → α) : ∀ (l : List β), (∀ x ∈ l, f (g x) = .ok x) → mapMR f (l.map g) = .ok l
   | [], _ => rfl
   | x :: xs, h => by
     simp only [List.map, mapMR, h x (by simp), mapMR_ok_of_forall f g xs (fun y hy => h y (by simp [hy]))]
+
+theorem mapMR_ok_length {α β} (f : α → R β) : ∀ (xs : List α) (ys : List β), mapMR f xs = .ok ys → ys.length = xs.length
+  | [], ys, h => by simp only [mapMR, Except.ok.injEq] at h; subst h; rfl
+  | x :: xs, ys, h => by
+    simp only [mapMR] at h
+    cases hx : f x with
+    | error e => simp [hx] at h
+    | ok y =>
+      cases hxs : mapMR f xs with
+      | error e => simp [hx, hxs] at h
+      | ok ys' =>
+        simp only [hx, hxs, Except.ok.injEq] at h
+        subst h
+        simp [mapMR_ok_length f xs ys' hxs]
+
+/-- member by member: the i-th result is what `f` makes of the i-th input -/
+theorem mapMR_ok_getElem {α β} (f : α → R β) : ∀ (xs : List α) (ys : List β), mapMR f xs = .ok ys →
+    ∀ (i : Nat) (h₁ : i < xs.length) (h₂ : i < ys.length), f xs[i] = .ok ys[i]
+  | [], _, _, i, h₁, _ => by simp at h₁
+  | x :: xs, ys, h, i, h₁, h₂ => by
+    simp only [mapMR] at h
+    cases hx : f x with
+    | error e => simp [hx] at h
+    | ok y =>
+      cases hxs : mapMR f xs with
+      | error e => simp [hx, hxs] at h
+      | ok ys' =>
+        simp only [hx, hxs, Except.ok.injEq] at h
+        subst h
+        cases i with
+        | zero => simpa using hx
+        | succ i =>
+          simp only [List.getElem_cons_succ]
+          exact mapMR_ok_getElem f xs ys' hxs i (by simpa using h₁) (by simpa using h₂)
 
 end CedarGo.JsonModel
